@@ -19,6 +19,7 @@ def _fake_classes():
     from pyvolutionary.models import (BaseOptimizationConfig, OptimizationResult, Agent, Population, Task,
                                       ContinuousMultiVariable)
     from pyvolutionary.enums import TaskType
+    from pydantic import field_validator
 
     class ScriptedConfig(BaseOptimizationConfig):
         population_size: int = 2
@@ -27,6 +28,12 @@ def _fake_classes():
         b: int = 0
         c: int = 0
         d: int | None = 7           # an optional parameter whose default is not None
+
+        @field_validator("a")
+        def _a_not_negative(cls, v):
+            if v < 0:
+                raise ValueError("a must not be negative")
+            return v
         log: str = ""
         label: str = "S"
 
@@ -190,6 +197,19 @@ def c19():
         rc = [json.loads(l) for l in open(log)]
         law("resolve with a None grid value: the best parameters are used as they are",
             len(rc) == 1 and rc[0]["params"][0] == ht.best_parameters.get("a") and rc[0]["d"] == ht.best_parameters.get("d"), f"{rc} / {ht.best_parameters}")
+        # a grid point the configuration model rejects (a < 0): the grid is refused, or at least never run under other parameters
+        log = os.path.join(tmp, "log_rej.jsonl")
+        open(log, "w").close()
+        task = F["tasks"]["TaskA"](variables=F["V"](), minmax="min", data={"table": {"1,0,0": 3.0, "-1,0,0": 1.0, "2,0,0": 5.0}, "log": log})
+        ht = HyperTuner(F["Opt"](), {"a": [1, -1, 2]})
+        refused = False
+        try:
+            ht.execute(task, n_trials=1, n_jobs=2)
+        except Exception:  # noqa
+            refused = True
+        got = sorted(c["params"][0] for c in (json.loads(l) for l in open(log)))
+        law("execute with a grid point the configuration rejects: refused, and no point is run under another point's parameters",
+            refused and all(g in (1, 2) for g in got) and len(got) == len(set(got)), f"refused={refused} calls={got}")
         # the same tuner executed twice: the second call answers for the second call only
         log = os.path.join(tmp, "log_twice.jsonl")
         open(log, "w").close()
@@ -263,6 +283,12 @@ def c20():
                     law(f"n={n} m={m} modes={sname} trials={n_trials}: one table per algorithm, a column per task, a row per trial", ok,
                         f"{[df.shape for df in mt._df2]}")
             if n == 2 and m == 3:
+                shared = tempfile.mkdtemp(prefix="c20_shared_", dir=tmp)       # the documented sequence: three formats, one folder
+                for fmt, ext in (("csv", "csv"), ("dataframe", "pkl"), ("json", "json")):
+                    mt.export_results(fmt, shared)
+                    files = sorted(os.path.relpath(p, shared) for p in glob.glob(shared + "/**/*." + ext, recursive=True))
+                    law(f"export {fmt} into a folder that already holds other exports: one file per algorithm",
+                        len(files) == n and sorted(os.path.dirname(f) for f in files) == sorted(a.name for a in algos), f"{files}")
                 for fmt, ext in (("csv", "csv"), ("json", "json"), ("dataframe", "pkl")):
                     d = tempfile.mkdtemp(prefix="c20_out_", dir=tmp)
                     mt.export_results(fmt, d)
